@@ -67,11 +67,17 @@ func (s *streamWriter) Invoke(msgs []actor.Envelope) {
 
 	for i := 0; i < len(msgs); i++ {
 		var (
-			stream   = msgs[i].Msg.(*streamDeliver)
 			typeID   int32
 			senderID int32
 			targetID int32
 		)
+		// Anything can be sent to the writer's PID, by local actors and by peers:
+		// what is not a deliver request is not for the wire.
+		stream, ok := msgs[i].Msg.(*streamDeliver)
+		if !ok {
+			slog.Error("stream writer", "err", "unexpected message", "type", reflect.TypeOf(msgs[i].Msg))
+			continue
+		}
 		// A message that cannot be serialized is dropped on its own.
 		if _, ok := stream.msg.(proto.Message); !ok {
 			slog.Error("serialize", "err", "message is not a proto.Message", "type", reflect.TypeOf(stream.msg))
